@@ -17,7 +17,7 @@ type Interp struct {
 	views []*sbase.SlidingWindowMetric
 }
 
-func New() *Interp {
+func New() vh.Interp {
 	c := &vh.Clock{}
 	vh.Install(c)
 	return &Interp{clk: c}
